@@ -118,6 +118,22 @@ impl Prop for C02 {
             st.label("unchanged-by-formatting");
             return Verdict::Pass { nontrivial: false };
         }
+        // Typst itself aborts (failed allocation, not a panic) on absurd numbers -- `columns: 4444444444444`
+        // makes it allocate that many tracks --, which no in-process harness survives: such documents are
+        // left to C01 (counted)
+        let huge = |text: &str| {
+            syn::any_node(&syn::parse(text), &mut |n| {
+                matches!(n.kind(), syn::K::Int | syn::K::Float | syn::K::Numeric) && {
+                    let digits: String = n.text().chars().take_while(|c| c.is_ascii_digit()).collect();
+                    digits.trim_start_matches('0').len() > 5
+                        || (n.kind() == syn::K::Float && (n.text().contains('e') || n.text().contains('E')))
+                        || (n.kind() == syn::K::Numeric && n.text().trim_end_matches(|c: char| c.is_ascii_alphabetic() || c == '%').contains(['e', 'E']))
+                }
+            })
+        };
+        if huge(&c.src) || huge(&out) {
+            return Verdict::skip("huge-number-literal(typst-may-abort)");
+        }
         let scale = match env.tier {
             Tier::Quick => 1.0,
             Tier::Thorough => 2.0,
